@@ -352,6 +352,48 @@ def s_send_order(vc):
         vc.ensure("current_stream.ok", out.ok)
 
 
+HTTPL = "mitmproxy.proxy.layers.http:"
+
+
+@scenario("flow_done.queued_events", functions=[HTTPL + "HttpStream.flow_done"])
+def s_flow_done_queue(vc):
+    """events that arrived while a hook was pending sit in the layer's paused queue.  For a finished ordinary flow they are
+    dropped (nothing may be replayed into a finished stream); for an upgraded flow (101) they are the first octets of the new
+    protocol — e.g. when the 101 head and a frame came in one segment — and must still be there when passthrough starts."""
+    from props import httpstream as HS_
+    status = vc.case("status", [101, 200])
+    kind = vc.case("upgrade", ["websocket", "rawtcp"]) if status == 101 else "none"
+    data = vc.sym_bytes("frame")
+    queued = HS_.ev(vc, "ResponseData", data=data)
+    req, resp = HS_.mk_request(vc), HS_.mk_response(vc, status_code=status, content=b"")
+    ws = vc.new("mitmproxy.websocket:WebSocketData", messages=vc.list([]), closed_by_client=None, close_code=None, close_reason=None, timestamp_end=None) if kind == "websocket" else None
+    st, flow, client, server = HS_.mk_stream(vc, "state_done", "state_done", request=req, response=resp, queue=[queued], rawtcp=True)
+    flow.websocket = ws
+    started = []
+
+    def child_event(v, self_, event):
+        started.append((self_, event))
+        return v.gen([v.ghost("child_event", self_, event)])
+
+    vc.summary("mitmproxy.proxy.layer:Layer.handle_event", child_event)
+    out = vc.call(HTTPL + "HttpStream.flow_done", st)
+    vc.ensure("no_exception", out.ok)
+    if not out.ok:
+        return
+    q = st._paused_event_queue
+    items = list(q.fields["_items"].items) if isinstance(q, SObj) else list(q)
+    if status == 101:
+        vc.ensure("upgrade.queued_octets_kept", len(items) == 1 and items[0] is queued)
+        vc.ensure("upgrade.child_layer_started", len(started) == 1 and st.child_layer is not None and not isnone(st.child_layer))
+        vc.ensure("upgrade.passthrough", HS_.fields_of(vc, st).get("_handle_event") is not None)
+    else:
+        vc.ensure("finished.queue_dropped", len(items) == 0)
+        vc.ensure("finished.stream_dropped", any(is_cmd(c, "DropStream") for c in out.trace))
+        vc.ensure("finished.flow_not_live", vc.eq(flow.live, False))
+    sends = [c for c in out.trace if HS_.is_send(c, "ResponseEndOfMessage", client)]
+    vc.ensure("end_of_message_to_client_last", len(sends) == 1 and out.trace[-1] is sends[0])
+
+
 # =====================================================================================================================
 # T2 (bounded)
 
@@ -387,6 +429,11 @@ def responder(label):
             return (b"HTTP/1.1 200 OK\r\n\r\n" + tag, True)
         if label == "204":
             return (b"HTTP/1.1 204 No Content\r\nX-For: " + req.target + b"\r\n\r\n", False)
+        if label == "upgrade-tcp":
+            # 101 head and the first octets of the new protocol, as one piece of the server stream
+            return (b"HTTP/1.1 101 Switching Protocols\r\nUpgrade: foo\r\nConnection: Upgrade\r\n\r\n" + b"first-bytes-of-foo", False)
+        if label == "upgrade-ws":
+            return (b"HTTP/1.1 101 Switching Protocols\r\nUpgrade: websocket\r\nConnection: Upgrade\r\nSec-WebSocket-Accept: x\r\n\r\n" + b"\x81\x05hello" + b"\x81\x02ok", False)
         raise ValueError(label)
     return r
 
@@ -417,6 +464,10 @@ def c02_streams(tier):
         ("obs-fold", [mk_request(b"GET", target=b"http://example.com/r0", lines=[b"X-A: a", b" b"])]),
         ("bad-request-line", [b"GARBAGE\r\n\r\n"]),
         ("http10", [mk_request(b"GET", target=b"http://example.com/r0", version=b"HTTP/1.0"), rq(1, "none", b"GET")]),
+        # protocol upgrades: the octets behind the 101 head belong to the new protocol and must reach the client however the server stream is cut
+        ("upgrade-tcp", [mk_request(b"GET", target=b"http://example.com/r0", lines=[b"Connection: Upgrade", b"Upgrade: foo"]), b"client-bytes-of-foo"]),
+        ("upgrade-ws", [mk_request(b"GET", target=b"http://example.com/r0", lines=[b"Connection: Upgrade", b"Upgrade: websocket", b"Sec-WebSocket-Version: 13",
+                                                                                    b"Sec-WebSocket-Key: dGhlIHNhbXBsZSBub25jZQ=="])]),
     ]
     if tier == "quick":
         return streams
@@ -452,8 +503,8 @@ def bounded(tier, seed):
     origins = ["cl", "chunked", "close", "204"] if tier != "quick" else ["cl", "chunked", "close"]
     for label, raws in c02_streams(tier):
         stream = b"".join(raws)
-        for og in origins:
-            if tier == "quick" and og != "cl" and label not in ("get", "pipeline-2", "post-chunked", "head", "crlf-between"):
+        for og in ([label] if label.startswith("upgrade") else origins):
+            if tier == "quick" and og != "cl" and label not in ("get", "pipeline-2", "post-chunked", "head", "crlf-between") and not label.startswith("upgrade"):
                 continue
             mk = lambda: [responder(og)] * (len(raws) + 2)
             base_ex = R.Exchange([stream], mk())
@@ -480,10 +531,18 @@ def bounded(tier, seed):
                 if got != base:
                     _report(b, "c02.client_segmentation_independent", dict(inp0, cuts=cuts), base, got, label)
             # --- server segmentations (client stream whole)
-            for mode in ("bytes", "halves", "thirds"):
-                split = {"bytes": lambda x: [x[i:i + 1] for i in range(len(x))],
-                         "halves": lambda x: [x[:len(x) // 2], x[len(x) // 2:]],
-                         "thirds": lambda x: [x[:len(x) // 3], x[len(x) // 3:2 * len(x) // 3], x[2 * len(x) // 3:]]}[mode]
+            modes = ["bytes", "halves", "thirds"]
+            if label.startswith("upgrade"):
+                # every single cut of the server stream (in particular: exactly between the 101 head and the new protocol's octets)
+                modes += [f"cut@{i}" for i in range(1, 140)]
+            for mode in modes:
+                if mode.startswith("cut@"):
+                    at = int(mode[4:])
+                    split = (lambda x, at=at: [x[:at], x[at:]] if at < len(x) else [x])
+                else:
+                    split = {"bytes": lambda x: [x[i:i + 1] for i in range(len(x))],
+                             "halves": lambda x: [x[:len(x) // 2], x[len(x) // 2:]],
+                             "thirds": lambda x: [x[:len(x) // 3], x[len(x) // 3:2 * len(x) // 3], x[2 * len(x) // 3:]]}[mode]
                 ex = R.Exchange([stream], mk(), server_splitter=split)
                 got = outcome(ex, len(raws))
                 b.case((label, og, "server", mode), nontrivial=bool(ex.flows))
